@@ -162,11 +162,12 @@ def render_lua(h, upto):
     steps = h["steps"][:upto] if upto else h["steps"]
     for s in steps:
         op, a, n = s["op"], s["a"], s["n"]
-        c = {"open": 'f = io.open(path, "%s")' % a, "peek": 'io.open(path, "r"):read("*a")',
+        c = {"open": "f = io.tmpfile()" if a == "tmp" else 'f = io.open(path, "%s")' % a, "peek": 'io.open(path, "r"):read("*a")',
              "read": "f:read(%d)" % n, "readline": 'f:read("*l")', "readall": 'f:read("*a")', "readnum": 'f:read("*n")',
              "lines": "it = f:lines() -- called %d times" % n, "write": "f:write(payload(%d, %d))" % (s["tag"], n),
              "seek": 'f:seek("%s", %d)' % (a, n), "seek0": "f:seek()", "seek1": 'f:seek("%s")' % a,
-             "getiter": "it = f:lines()  -- kept", "calliter": "it()", "flush": "f:flush()", "setvbuf": 'f:setvbuf("%s")' % a,
+             "getiter": "it = f:lines()  -- kept", "calliter": "it()", "flush": "f:flush()",
+             "setvbuf": ('f:setvbuf("%s", %d)' % (a, n)) if n else 'f:setvbuf("%s")' % a,
              "close": "f:close()"}[op]
         out.append("%s  --> %s" % (c, json.dumps(s["exp"])[:120]))
     return out
@@ -189,7 +190,8 @@ LAYS = [["num", 4], ["num", 2], ["num", 7], ["num", 10], ["per", 37], ["per", 0]
 COUNTS = [0, 1, 2, 3, 10, 36, 37, 100, 4000, 4095, 4096, 4097, 5000, 8192, 8193]
 OFFS = [0, 0, 0, 1, -1, 2, -2, 37, -37, 100, -100, 4095, -4095, 4096, -4096, 4097, 5000, -5000, 9000]
 MODES = ["r", "rb", "w", "wb", "a", "ab", "r+", "rb+", "w+", "wb+", "a+", "ab+"]
-UPDATE = ["r+", "w+", "a+", "rb+", "r+", "w+"]
+UPDATE = ["r+", "w+", "a+", "rb+", "r+", "w+", "tmp", "wb+", "ab+"]
+VSIZES = [0, 0, 1, 2, 16, 100, 4096]
 
 
 def op(o, a="", n=0):
@@ -224,13 +226,22 @@ def rand_ops(rng, n):
         elif r < 0.84:
             ops.append(op("flush"))
         elif r < 0.88:
-            ops.append(op("setvbuf", rng.choice(["no", "full", "full", "line"])))
+            ops.append(op("setvbuf", rng.choice(["no", "full", "full", "line"]), rng.choice(VSIZES)))
         elif r < 0.93:
             ops.append(op("peek") if rng.random() < 0.5 else op("calliter"))
         elif r < 0.97:
             ops.append(op("close"))
         else:
-            ops.append(op("open", rng.choice(MODES)))
+            ops.append(op("open", rng.choice(MODES + ["tmp"])))
+    if rng.random() < 0.35:
+        # motif: small stream buffer, short read (leaves read-ahead), flush, a write around / beyond the buffer size
+        b = rng.choice([1, 2, 16, 100, 4096])
+        m = [op("seek", "set", rng.choice([0, 0, 1, 50])), op("setvbuf", rng.choice(["full", "full", "line"]), b),
+             op("read", "", rng.choice([1, 2, 4, 37])), op("flush"),
+             op("write", "", max(1, rng.choice([b - 1, b, b + 1, 2 * b + 1, 5000]))),
+             rng.choice([op("seek0"), op("peek"), op("flush"), op("read", "", 3)]), op("flush"), op("peek")]
+        at = rng.randint(1, len(ops))
+        ops[at:at] = m
     return ops
 
 
@@ -269,9 +280,11 @@ def run(tier):
     vlib.build_harness()
     thorough = tier == "thorough"
     slices = [("IoFileGen_modes", 4, "modes"), ("IoFileGen_rw", 4 if thorough else 3, "rw"), ("IoFileGen_lines", 4, "lines"),
-              ("IoFileGen_num", 4, "num"), ("IoFileGen_iter", 6, "iter"), ("IoFileGen_buf", 5, "buf")]
+              ("IoFileGen_num", 4, "num"), ("IoFileGen_iter", 6, "iter"), ("IoFileGen_buf", 5, "buf"),
+              ("IoFileGen_wbuf", 5, "wbuf"), ("IoFileGen_wbuft", 7, "wbuft")]
     if thorough:
         slices.append(("IoFileGen_all", 3, "all"))
+        slices.append(("IoFileGen_wbufa", 6, "wbufa"))
     from concurrent.futures import ThreadPoolExecutor
     vlib.specdir()                      # create the scratch copy before threads use it
     pool = ThreadPoolExecutor(max_workers=len(slices) + 2)
@@ -320,7 +333,9 @@ def run(tier):
     missing = [k for k in need if not stats["byop"].get(k)]
     # the dedicated slices reach what they were made for
     for tag, ks in (("buf", ["setvbuf", "write", "seek0", "seek1", "peek"]),
-                    ("iter", ["getiter", "calliter", "calliter@closed", "readline", "seek0"])):
+                    ("iter", ["getiter", "calliter", "calliter@closed", "readline", "seek0"]),
+                    ("wbuf", ["setvbuf", "read", "flush", "write", "peek"]),
+                    ("wbuft", ["setvbuf", "read", "flush", "write", "seek"])):
         missing += ["%s:%s" % (tag, k) for k in ks if k not in stats["bytag"].get(tag, ())]
     if missing:
         raise vlib.Infra("generated histories never exercised: %s" % missing)
@@ -335,8 +350,8 @@ def run(tier):
         "random_proposed_ops": stats["proposed_ops"], "random_legal_ops": stats["legal_ops"],
         "distinct_nontrivial": len(distinct),
         "rule": "histories = one per transition of IoFileMC's state graph (BFS, one per (state, depth), single worker) for the constant slices "
-                "modes/rw/lines/num/iter/buf%s, plus seeded random proposals filtered by Legal; distinct by canonical hash of "
-                "(initial size, layout, operation list); non-trivial = at least 3 operations" % ("/all" if thorough else ""),
+                "modes/rw/lines/num/iter/buf/wbuf/wbuft%s, plus seeded random proposals filtered by Legal; distinct by canonical hash of "
+                "(initial size, layout, operation list); non-trivial = at least 3 operations" % ("/all/wbufa" if thorough else ""),
         "samples": samples, "mc_runs": mc, "exhaustive": False,
         "rejected_case_keys": dict(sorted(verd.nviol.items())),
         "known_findings_hit": sorted(verd.known_hit),
